@@ -1005,7 +1005,22 @@ def F6(m, R):
                     if isinstance(x_, ast.Assign) and len(x_.targets) == 1 and isinstance(x_.targets[0], ast.Name) and isinstance(x_.value, (ast.Subscript, ast.Name, ast.Attribute)):
                         lal[x_.targets[0].id] = x_.value
 
-                def val(atom, val0=val0, lal=lal):
+                # `x = OLD.get(K)`: x is None exactly when K is not a key (the values are setting objects), otherwise it is OLD[K]
+                getl = {}
+                for x_ in ast.walk(lp):
+                    if isinstance(x_, ast.Assign) and len(x_.targets) == 1 and isinstance(x_.targets[0], ast.Name) and call_name(x_.value) == 'get' and \
+                            isinstance(x_.value.func, ast.Attribute) and norm(x_.value.func.value) in (OLD, NEW) and x_.value.args and norm(x_.value.args[0]) == K and \
+                            (len(x_.value.args) == 1 or const_val(x_.value.args[1], 0) is None) and not x_.value.keywords:
+                        D_ = norm(x_.value.func.value)
+                        getl[x_.targets[0].id] = D_
+                        lal[x_.targets[0].id] = ast.parse('%s[%s]' % (D_, K), mode='eval').body
+                in_st = {OLD: status in ('only-old', 'both-same', 'both-diff'), NEW: status in ('only-new', 'both-same', 'both-diff')}
+
+                def val(atom, val0=val0, lal=lal, getl=getl, in_st=in_st):
+                    if getl and isinstance(atom, ast.Compare) and len(atom.ops) == 1 and isinstance(atom.ops[0], (ast.Is, ast.IsNot)) and \
+                            isinstance(atom.left, ast.Name) and atom.left.id in getl and const_val(atom.comparators[0], 0) is None:
+                        present = in_st[getl[atom.left.id]]
+                        return (not present) if isinstance(atom.ops[0], ast.Is) else present
                     return val0(subst(atom, lal)) if lal else val0(atom)
 
                 def visit(st, src=src, K=K, V=V, lal=lal):
